@@ -281,7 +281,8 @@ func (r *c13Run) pool() map[string]interface{} {
 		if id := q.getPeerID(); id != "" {
 			pn = r.nameOf(id)
 		}
-		req = append(req, map[string]interface{}{"h": int(h), "peer": pn, "blk": blk})
+		// redo: the requester has been told to drop its peer (bpRequester.redo) and has not reset yet
+		req = append(req, map[string]interface{}{"h": int(h), "peer": pn, "blk": blk, "redo": len(q.redoCh) > 0})
 	}
 	al := []string{}
 	for n := range r.alive {
